@@ -625,9 +625,22 @@ func generate(r *rng.R, mode string, hist int, s *sut) History {
 			add(Op{Kind: "createsub", Ch: a, Tok: sa})
 			add(Op{Kind: "createsub", Ch: b, Tok: sb})
 			add(Op{Kind: "createsub", Ch: b, Tok: sb})
-			add(Op{Kind: "createitems", Ch: a, Tok: sa, Sub: x, Reads: genReads(r, h.Nodes, ns, hist, 2)})
-			add(Op{Kind: "createitems", Ch: b, Tok: sb, Sub: y, Reads: genReads(r, h.Nodes, ns, hist, 2)})
+			one := func() []RV { return genReads(r, h.Nodes, ns, hist, 1)[:1] }
+			add(Op{Kind: "createitems", Ch: a, Tok: sa, Sub: x, Reads: one()}) // lastitem1: a's item
+			add(Op{Kind: "createitems", Ch: b, Tok: sb, Sub: y, Reads: one()}) // lastitem0: b's item
 			_ = nsub
+			// monitored item requests of b that name a's item: with b's own subscription id, with a's, with unknown ids;
+			// both handlers, foreign id before and after an own id
+			mode := uint32(r.Pick(0, 1, 2))
+			add(Op{Kind: "setmode", Ch: b, Tok: sb, Sub: y, IDRefs: []string{"lastitem1"}, Mode: mode})
+			add(Op{Kind: "setmode", Ch: b, Tok: sb, Sub: y, IDRefs: []string{"lastitem0", "lastitem1", "n424242"}, Mode: mode})
+			add(Op{Kind: "setmode", Ch: b, Tok: sb, Sub: x, IDRefs: []string{"lastitem1", "lastitem0"}, Mode: mode})
+			add(Op{Kind: "setmode", Ch: b, Tok: sb, Sub: "n999999", IDRefs: []string{"lastitem1"}, Mode: mode})
+			add(Op{Kind: "deleteitems", Ch: b, Tok: sb, Sub: y, IDRefs: []string{"lastitem1"}})
+			add(Op{Kind: "deleteitems", Ch: b, Tok: sb, Sub: x, IDRefs: []string{"lastitem1", "n424242"}})
+			add(Op{Kind: "deleteitems", Ch: b, Tok: sb, Sub: "n999999", IDRefs: []string{"lastitem1"}})
+			add(Op{Kind: "deleteitems", Ch: b, Tok: sb, Sub: y, IDRefs: []string{"lastitem0", "lastitem1"}}) // own first, then foreign
+			add(Op{Kind: "read", Ch: a, Tok: sa, Reads: genReads(r, h.Nodes, ns, hist, 1)})
 			if r.Bool() {
 				add(Op{Kind: "deletesubs", Ch: b, Tok: sb, IDRefs: []string{x, y}}) // foreign first
 				add(Op{Kind: "deletesubs", Ch: b, Tok: sb, IDRefs: []string{z, x}}) // own first
